@@ -34,7 +34,7 @@ def run(tier, seed):
     cases_path = os.path.join(d, "cases.ndjson")
     common.write_ndjson(cases_path, cases)
     rep_path = os.path.join(d, "report.json")
-    rc, so, se = common.run_bin("leader_replay", [cases_path, rep_path, 3000 if tier == "quick" else 20000])
+    rc, so, se = common.run_bin("leader_replay", [cases_path, rep_path, 3000 if tier == "quick" else 20000], timeout=(900 if tier == "quick" else 14400))
     if rc != 0:
         raise common.ToolError(f"leader_replay failed rc={rc}: {se[-1500:]}")
     rep = common.load_report(rep_path)
